@@ -180,9 +180,9 @@ def rule_op_own(ctx: RuleContext, p: Program, rid: str) -> None:
 
 
 def run(ctx: RuleContext, p: Program) -> None:
-    grammar_rules.rule_op_table(ctx, p, 'OP-TABLE')
-    rule_op_pair(ctx, p, 'OP-PAIR')
-    rule_op_level(ctx, p, 'OP-LEVEL')
-    rule_op_own(ctx, p, 'OP-OWN')
+    ctx.try_rule(grammar_rules.rule_op_table, p, 'OP-TABLE')
+    ctx.try_rule(rule_op_pair, p, 'OP-PAIR')
+    ctx.try_rule(rule_op_level, p, 'OP-LEVEL')
+    ctx.try_rule(rule_op_own, p, 'OP-OWN')
     ctx.not_decided += ['decimal arithmetic results', 'precedence / associativity of parsed trees (grammar)', 're-parse of printed results']
     ctx.assumptions += ['primitive models of the effect interpreter (see C19)', 'lark grammar compiled as for the repository']
